@@ -75,7 +75,11 @@ struct Explorer {
 		if (r.env.engineErrors) engineError("replay: " + r.env.engineErrorText, node.hist);
 		if (r.fsm) {
 			x.keyBefore = r.key();
-			if (!node.key.empty() && x.keyBefore != node.key) { ++replayChecks; engineError("replay of a stored history does not reproduce the stored state key (" + node.key + " vs " + x.keyBefore + ")", node.hist); }
+			if (!node.key.empty() && x.keyBefore != node.key) {
+				++replayChecks;
+				if (props & P_C10) E::R().violation("C10", "replay/history-not-reproducible", "replaying the same history on a fresh instance reaches " + x.keyBefore + " instead of " + node.key, node.hist);
+				else engineError("replay of a stored history does not reproduce the stored state key (" + node.key + " vs " + x.keyBefore + ")", node.hist);
+			}
 			x.before = r.snap();
 		} else
 			x.keyBefore = "<none>";
@@ -250,6 +254,10 @@ struct Explorer {
 	void checkC05(const Node& node, Exec& x);
 	void checkC04(const Node& node, Exec& x);
 	void checkC13(const Node& node, Exec& x);
+	void checkC09(Runner& r, Exec& x);
+	void checkC08();
+	void copyCheck(const Node& n, const Op& op, const Exec& ref);
+	std::deque<Node> allNodes;
 	struct Round { size_t first, last; bool cancelled; int pending; };
 	std::vector<Round> rounds(const Exec& x) const;
 	struct GuardSnap { int state, meth; std::vector<uint8_t> bits; std::vector<int> req; };
@@ -419,6 +427,7 @@ struct Explorer {
 			Node n = std::move(frontier.front());
 			frontier.pop_front();
 			++states;
+			if (props & (P_C08 | P_C10)) allNodes.push_back(n);
 			for (const Op& op : baseAlphabet(n)) {
 				exploreStep(n, op, frontier, opt.dev);
 				if (deadlineHit) break;
